@@ -194,7 +194,7 @@ pub fn execute(plan: &Plan, ctx: &mut Ctx) {
         let valid = match code {
             "C" => a0 < nt && (op.arg(1) as usize) < nt && a0 != op.arg(1) as usize,
             "D" | "SS" | "SC" => a0 < nt,
-            "UD" | "MREJ" | "MUERR" | "ENC" | "ENCN" | "ENCE" | "ENCUERR" => a0 < specs.len(),
+            "UD" | "MREJ" | "MUERR" | "ENC" | "ENCN" | "ENCE" | "ENCUERR" | "ENCP" => a0 < specs.len(),
             _ => true,
         };
         if !valid {
@@ -220,9 +220,11 @@ pub fn execute(plan: &Plan, ctx: &mut Ctx) {
             }
         }
         let mut enc_updates_before = 0;
+        let mut enc_had_pending = false;
         if code == "UD" {
             if let Dev::Enc(_, h) = &*devs[a0] {
                 enc_updates_before = h.updates.get();
+                enc_had_pending = h.pending.borrow().is_some();
             }
         }
         // ---- apply
@@ -261,6 +263,16 @@ pub fn execute(plan: &Plan, ctx: &mut Ctx) {
                             Time(op.arg(1)),
                             State::new_raw(op.f(2), op.f(3), op.f(4)),
                         )));
+                    }
+                    None
+                }
+                "ENCP" => {
+                    // the reading becomes current inside the inner getter's next update()
+                    if let Dev::Enc(_, h) = &*devs[a0] {
+                        *h.pending.borrow_mut() = Some(Ok(Some(Datum::new(
+                            Time(op.arg(1)),
+                            State::new_raw(op.f(2), op.f(3), op.f(4)),
+                        ))));
                     }
                     None
                 }
@@ -362,7 +374,7 @@ pub fn execute(plan: &Plan, ctx: &mut Ctx) {
             }
             _ => {}
         }
-        if matches!(code, "SS" | "SC" | "ENC") {
+        if matches!(code, "SS" | "SC" | "ENC" | "ENCP") {
             let t = op.arg(1);
             tmin = Some(tmin.map_or(t, |m: i64| m.min(t)));
             tmax = Some(tmax.map_or(t, |m: i64| m.max(t)));
@@ -388,7 +400,7 @@ pub fn execute(plan: &Plan, ctx: &mut Ctx) {
             let spec = &specs[d];
             let ts = &dev_terms[d];
             ctx.count("n.device_update");
-            let tie = check_update(ctx, plan, i, spec, ts, &pre, &snaps, ret, &devs[d], motor_before, enc_updates_before, twins.get_mut(&d));
+            let tie = check_update(ctx, plan, i, spec, ts, &pre, &snaps, ret, &devs[d], motor_before, enc_updates_before, enc_had_pending, twins.get_mut(&d));
             if tie {
                 // different commands with equal stamps met at this device (a kinematic loop
                 // with inconsistent ratios): outside the property's quantifier
@@ -494,6 +506,7 @@ fn op_code_num(code: &str) -> i64 {
         "ENCN" => 9,
         "ENCE" => 10,
         "ENCUERR" => 11,
+        "ENCP" => 12,
         _ => 0,
     }
 }
@@ -606,6 +619,7 @@ fn check_update(
     dev: &Dev,
     motor_before: Option<usize>,
     enc_updates_before: u64,
+    enc_had_pending: bool,
     twin: Option<&mut PidTwin>,
 ) -> bool {
     let mut tie_seen = false;
@@ -920,6 +934,9 @@ fn check_update(
                 viol2(ctx, &["C20"], "encoder_inner_update", comp, format!("op {}: inner getter was updated {} times", i, ups));
             }
             let cur = norm(&h.cur.borrow());
+            if h.pending.borrow().is_none() && enc_had_pending {
+                ctx.count("reach.encoder_reading_changes_in_update");
+            }
             let (want_slot, want_ret) = match (h.update_err.get(), cur) {
                 (Some(e), _) => {
                     ctx.count("fault.inner_update_err");
